@@ -100,6 +100,15 @@ def peekState (l : L) (a : Addr) (k : String) : Bytes :=
   | some acc => rdAcct l a k acc
   | none => below l a k
 
+/-- the inner account (nonce, balance, code hash) the reads of an account object answer from -/
+def ivOf (acc : Acct) : Inner := acc.dirtyAcc.getD (copyOrNew acc.originAcc)
+
+/-- … as a pure function of the ledger (`GetBalance`, `GetNonce` answer its fields) -/
+def peekInner (l : L) (a : Addr) : Inner :=
+  match viewAcct l a with
+  | some acc => ivOf acc
+  | none => {}
+
 theorem getState_eq (l : L) (a : Addr) (k : String) :
     getState l a k =
       (match KV.get (getOrCreate l a).2.dirtyState k with
@@ -187,6 +196,36 @@ theorem getOrCreate_reads (l : L) (a : Addr) (k : String) : rdAcct l a k (getOrC
     | some acc => rfl
     | none => simp [rdAcct, KV.get]
 
+theorem getOrCreate_inner (l : L) (a : Addr) : ivOf (getOrCreate l a).2 = peekInner l a := by
+  unfold peekInner viewAcct
+  rw [getOrCreate_eq]
+  cases KV.get l.accounts a with
+  | some acc => rfl
+  | none =>
+    simp only
+    cases loadAcct l a with
+    | some acc => rfl
+    | none => rfl
+
+theorem acct_balance_iv (acc : Acct) : acc.balance = (ivOf acc).balance := by
+  unfold Acct.balance ivOf copyOrNew
+  cases acc.dirtyAcc with
+  | some d => rfl
+  | none => cases acc.originAcc <;> rfl
+
+theorem acct_nonce_iv (acc : Acct) : acc.nonce = (ivOf acc).nonce := by
+  unfold Acct.nonce ivOf copyOrNew
+  cases acc.dirtyAcc with
+  | some d => rfl
+  | none => cases acc.originAcc <;> rfl
+
+/-- **`GetBalance` / `GetNonce` answer the view** -/
+theorem getBalance_peek (l : L) (a : Addr) : (getBalance l a).2 = (peekInner l a).balance := by
+  unfold getBalance; simp only; rw [acct_balance_iv, getOrCreate_inner]
+
+theorem getNonce_peek (l : L) (a : Addr) : (getNonce l a).2 = (peekInner l a).nonce := by
+  unfold getNonce; simp only; rw [acct_nonce_iv, getOrCreate_inner]
+
 /-- the changes `getOrCreate` appends: a creation mark exactly when the account is neither loaded nor loadable -/
 theorem getOrCreate_changes (l : L) (a : Addr) :
     (viewAcct l a = none ∧ KV.get l.accounts a = none ∧ (getOrCreate l a).1.changes = l.changes ++ [.createObject a]) ∨
@@ -208,7 +247,7 @@ structure SetSpec (l : L) (a : Addr) (k : String) (v : Bytes) (r : L) : Prop whe
   nrev : r.nextRev = l.nextRev
   other : ∀ b, b ≠ a → KV.get r.accounts b = KV.get l.accounts b
   self : ∃ accm, KV.get r.accounts a = some { accm with dirtyState := KV.set accm.dirtyState k v } ∧
-    ∀ k', rdAcct l a k' accm = peekState l a k'
+    (∀ k', rdAcct l a k' accm = peekState l a k') ∧ ivOf accm = peekInner l a
   chg : (viewAcct l a = none ∧ KV.get l.accounts a = none ∧
           r.changes = l.changes ++ [.createObject a, .storage a k (peekState l a k)]) ∨
         ((viewAcct l a).isSome = true ∧ r.changes = l.changes ++ [.storage a k (peekState l a k)])
@@ -217,6 +256,7 @@ theorem setState_spec (l : L) (a : Addr) (k : String) (v : Bytes) : SetSpec l a 
   have hpres := getOrCreate_present l a
   have hoth := getOrCreate_other l a
   have hrd := getOrCreate_reads l a
+  have hiv := getOrCreate_inner l a
   have hchg := getOrCreate_changes l a
   obtain ⟨hc, hd⟩ := getOrCreate_cache_db l a
   obtain ⟨hr1, hr2⟩ := getOrCreate_rev l a
@@ -230,11 +270,11 @@ theorem setState_spec (l : L) (a : Addr) (k : String) (v : Bytes) : SetSpec l a 
   -- the ledger after the read
   have key : ∀ (lr : L) (accm : Acct), lr.cache = l1.cache → lr.db = l1.db → lr.revisions = l1.revisions → lr.nextRev = l1.nextRev →
       lr.changes = l1.changes → (∀ b, b ≠ a → KV.get lr.accounts b = KV.get l1.accounts b) → KV.get lr.accounts a = some accm →
-      (∀ k', rdAcct l a k' accm = rdAcct l a k' acc) →
+      (∀ k', rdAcct l a k' accm = rdAcct l a k' acc) → ivOf accm = ivOf acc →
       SetSpec l a k v { putAcct lr a { (KV.get lr.accounts a).getD {} with dirtyState := KV.set ((KV.get lr.accounts a).getD {}).dirtyState k v } with
         changes := (putAcct lr a { (KV.get lr.accounts a).getD {} with dirtyState := KV.set ((KV.get lr.accounts a).getD {}).dirtyState k v }).changes ++
           [.storage a k (rdAcct l1 a k acc)] } := by
-    intro lr accm e1 e2 e3 e4 e5 e6 e7 e8
+    intro lr accm e1 e2 e3 e4 e5 e6 e7 e8 e9
     rw [e7]
     simp only [Option.getD_some]
     refine ⟨by show lr.cache = _; rw [e1, hc], by show lr.db = _; rw [e2, hd], by show lr.revisions = _; rw [e3, hr1],
@@ -242,7 +282,7 @@ theorem setState_spec (l : L) (a : Addr) (k : String) (v : Bytes) : SetSpec l a 
     · intro b hb
       show KV.get (KV.set lr.accounts a _) b = _
       rw [KV.get_set_ne _ _ _ _ (Ne.symm hb), e6 b hb, hoth b hb]
-    · refine ⟨accm, ?_, fun k' => by rw [e8, hrd]⟩
+    · refine ⟨accm, ?_, fun k' => by rw [e8, hrd], by rw [e9, hiv]⟩
       show KV.get (KV.set lr.accounts a _) a = _
       rw [KV.get_set_eq]
     · have hprev : rdAcct l1 a k acc = peekState l a k := by rw [rdAcct_congr hc hd, hrd]
@@ -257,15 +297,15 @@ theorem setState_spec (l : L) (a : Addr) (k : String) (v : Bytes) : SetSpec l a 
         show lr.changes ++ [Change.storage a k (peekState l a k)] = l.changes ++ [Change.storage a k (peekState l a k)]
         rw [e5, h3]
   cases h1 : KV.get acc.dirtyState k with
-  | some v0 => simp only; exact key l1 acc rfl rfl rfl rfl rfl (fun _ _ => rfl) hpres (fun _ => rfl)
+  | some v0 => simp only; exact key l1 acc rfl rfl rfl rfl rfl (fun _ _ => rfl) hpres (fun _ => rfl) rfl
   | none =>
     simp only
     cases h2 : KV.get acc.originState k with
-    | some v0 => simp only; exact key l1 acc rfl rfl rfl rfl rfl (fun _ _ => rfl) hpres (fun _ => rfl)
+    | some v0 => simp only; exact key l1 acc rfl rfl rfl rfl rfl (fun _ _ => rfl) hpres (fun _ => rfl) rfl
     | none =>
       simp only
       refine key (putAcct l1 a { acc with originState := KV.set acc.originState k (below l1 a k) }) _ rfl rfl rfl rfl rfl
-        (fun b hb => KV.get_set_ne _ _ _ _ (Ne.symm hb)) (putAcct_get _ _ _) ?_
+        (fun b hb => KV.get_set_ne _ _ _ _ (Ne.symm hb)) (putAcct_get _ _ _) ?_ rfl
       intro k'
       unfold rdAcct
       simp only
@@ -306,7 +346,7 @@ theorem peekState_setState (l : L) (a : Addr) (k : String) (v : Bytes) (b : Addr
   have sp := setState_spec l a k v
   by_cases hb : b = a
   · subst hb
-    obtain ⟨accm, h1, h2⟩ := sp.self
+    obtain ⟨accm, h1, h2, _⟩ := sp.self
     rw [peekState_of_present h1]
     unfold rdAcct
     simp only
@@ -321,18 +361,37 @@ theorem peekState_setState (l : L) (a : Addr) (k : String) (v : Bytes) (b : Addr
   · simp only [hb, false_and, if_false]
     exact peekState_congr sp.cache sp.db b (sp.other b hb) k'
 
+theorem peekInner_congr {l l' : L} (hc : l'.cache = l.cache) (hd : l'.db = l.db) (a : Addr)
+    (ha : KV.get l'.accounts a = KV.get l.accounts a) : peekInner l' a = peekInner l a := by
+  unfold peekInner; rw [viewAcct_congr hc hd a ha]
+
+theorem peekInner_of_present {l : L} {a : Addr} {acc : Acct} (h : KV.get l.accounts a = some acc) : peekInner l a = ivOf acc := by
+  unfold peekInner viewAcct; rw [h]
+
+/-- a storage write leaves nonce, balance and code hash of every account as they read before -/
+theorem peekInner_setState (l : L) (a : Addr) (k : String) (v : Bytes) (b : Addr) :
+    peekInner (setState l a k v) b = peekInner l b := by
+  have sp := setState_spec l a k v
+  by_cases hb : b = a
+  · subst hb
+    obtain ⟨accm, h1, _, h3⟩ := sp.self
+    rw [peekInner_of_present h1, ← h3]; rfl
+  · exact peekInner_congr sp.cache sp.db b (sp.other b hb)
+
 /-- two ledgers between which a revert is indifferent: same cache and database, the same storage view, and every account object of the
 second is an object of the first as well -/
 structure RevRel (u s : L) : Prop where
   cache : u.cache = s.cache
   db : u.db = s.db
   peek : ∀ a k, peekState u a k = peekState s a k
+  inner : ∀ a, peekInner u a = peekInner s a
   keys : ∀ a, (KV.get s.accounts a).isSome = true → (KV.get u.accounts a).isSome = true
 
-theorem RevRel.refl (s : L) : RevRel s s := ⟨rfl, rfl, fun _ _ => rfl, fun _ h => h⟩
+theorem RevRel.refl (s : L) : RevRel s s := ⟨rfl, rfl, fun _ _ => rfl, fun _ => rfl, fun _ h => h⟩
 
 theorem RevRel.trans {x y z : L} (h1 : RevRel x y) (h2 : RevRel y z) : RevRel x z :=
-  ⟨h1.cache.trans h2.cache, h1.db.trans h2.db, fun a k => (h1.peek a k).trans (h2.peek a k), fun a h => h1.keys a (h2.keys a h)⟩
+  ⟨h1.cache.trans h2.cache, h1.db.trans h2.db, fun a k => (h1.peek a k).trans (h2.peek a k), fun a => (h1.inner a).trans (h2.inner a),
+    fun a h => h1.keys a (h2.keys a h)⟩
 
 /-- undoing a storage change on a ledger in which the account is an object -/
 theorem undo_storage_facts (K : String → String) (u : L) (a : Addr) (k : String) (prev : Bytes) (au : Acct)
@@ -361,13 +420,13 @@ theorem undo_setState (K : String → String) (s : L) (a : Addr) (k : String) (v
   -- the part common to both shapes: undoing the storage change
   have common : ∀ u, RevRel u (setState s a k v) →
       let u1 := undo K u (.storage a k (peekState s a k))
-      u1.cache = s.cache ∧ u1.db = s.db ∧ (∀ b k', peekState u1 b k' = peekState s b k') ∧
+      u1.cache = s.cache ∧ u1.db = s.db ∧ (∀ b k', peekState u1 b k' = peekState s b k') ∧ (∀ b, peekInner u1 b = peekInner s b) ∧
       (∀ c, (KV.get (setState s a k v).accounts c).isSome = true → (KV.get u1.accounts c).isSome = true) := by
     intro u hR
     have hau : (KV.get u.accounts a).isSome = true := hR.keys a (by rw [hself]; rfl)
     obtain ⟨au, hau⟩ := Option.isSome_iff_exists.mp hau
     obtain ⟨f1, f2, f3, f4⟩ := undo_storage_facts K u a k (peekState s a k) au hau
-    refine ⟨f1.trans (hR.cache.trans sp.cache), f2.trans (hR.db.trans sp.db), ?_, ?_⟩
+    refine ⟨f1.trans (hR.cache.trans sp.cache), f2.trans (hR.db.trans sp.db), ?_, ?_, ?_⟩
     · intro b k'
       by_cases hb : b = a
       · subst hb
@@ -383,6 +442,12 @@ theorem undo_setState (K : String → String) (s : L) (a : Addr) (k : String) (v
           rw [KV.get_set_ne _ _ _ _ (Ne.symm hk), below_congr f1 f2]
       · rw [peekState_congr f1 f2 b (f4 b hb) k', hR.peek b k', hpk]
         simp [hb]
+    · intro b
+      rw [← peekInner_setState s a k v b, ← hR.inner b]
+      by_cases hb : b = a
+      · subst hb
+        rw [peekInner_of_present f3, peekInner_of_present hau]; rfl
+      · exact peekInner_congr f1 f2 b (f4 b hb)
     · intro c hc
       by_cases hca : c = a
       · subst hca; rw [f3]; rfl
@@ -391,9 +456,9 @@ theorem undo_setState (K : String → String) (s : L) (a : Addr) (k : String) (v
   · -- the account was created by this write
     refine ⟨_, hchg, ?_⟩
     intro u hR
-    obtain ⟨c1, c2, c3, c4⟩ := common u hR
+    obtain ⟨c1, c2, c3, c3i, c4⟩ := common u hR
     simp only [List.reverse_cons, List.reverse_nil, List.nil_append, List.cons_append, List.foldl_cons, List.foldl_nil]
-    generalize undo K u (.storage a k (peekState s a k)) = u1 at c1 c2 c3 c4
+    generalize undo K u (.storage a k (peekState s a k)) = u1 at c1 c2 c3 c3i c4
     have hload : loadAcct s a = none := by
       unfold viewAcct at hv; rw [hacc] at hv; exact hv
     have hinner : KV.get u1.cache.inner a = none := by rw [c1]; exact loadAcct_none_inner hload
@@ -408,7 +473,7 @@ theorem undo_setState (K : String → String) (s : L) (a : Addr) (k : String) (v
       by_cases hb : b = a
       · subst hb; simp [KV.get_erase_eq]
       · simp only [hb, if_false]; exact KV.get_erase_ne _ _ _ (Ne.symm hb)
-    refine ⟨hcache, hdb, ?_, ?_⟩
+    refine ⟨hcache, hdb, ?_, ?_, ?_⟩
     · intro b k'
       by_cases hb : b = a
       · subst hb
@@ -417,20 +482,195 @@ theorem undo_setState (K : String → String) (s : L) (a : Addr) (k : String) (v
         exact below_congr hcache hdb b k'
       · rw [← c3 b k']
         exact peekState_congr (hcache.trans c1.symm) (hdb.trans c2.symm) b (by rw [hget, if_neg hb]) k'
+    · intro b
+      by_cases hb : b = a
+      · subst hb
+        unfold peekInner viewAcct
+        rw [hget, if_pos rfl, hacc, loadAcct_congr hcache hdb, hload]
+      · rw [← c3i b]
+        exact peekInner_congr (hcache.trans c1.symm) (hdb.trans c2.symm) b (by rw [hget, if_neg hb])
     · intro c hc
       have hca : c ≠ a := by intro e; subst e; rw [hacc] at hc; cases hc
       rw [hget, if_neg hca]
       exact c4 c (by rw [sp.other c hca]; exact hc)
   · refine ⟨_, hchg, ?_⟩
     intro u hR
-    obtain ⟨c1, c2, c3, c4⟩ := common u hR
+    obtain ⟨c1, c2, c3, c3i, c4⟩ := common u hR
     simp only [List.reverse_cons, List.reverse_nil, List.nil_append, List.foldl_cons, List.foldl_nil]
-    refine ⟨c1, c2, c3, ?_⟩
+    refine ⟨c1, c2, c3, c3i, ?_⟩
     intro c hc
     by_cases hca : c = a
     · subst hca; exact c4 c (by rw [hself]; rfl)
     · exact c4 c (by rw [sp.other c hca]; exact hc)
 
+
+/-- what a journaled write to the inner account (balance, nonce) does: `f` is the update of the inner account, `c` the change it
+appends (after the creation mark, when the write created the account object) -/
+structure ISpec (l : L) (a : Addr) (f : Inner → Inner) (c : Change) (r : L) : Prop where
+  cache : r.cache = l.cache
+  db : r.db = l.db
+  revs : r.revisions = l.revisions
+  nrev : r.nextRev = l.nextRev
+  other : ∀ b, b ≠ a → KV.get r.accounts b = KV.get l.accounts b
+  self : ∃ acc0, KV.get r.accounts a = some { acc0 with dirtyAcc := some (f (ivOf acc0)) } ∧
+    (∀ k', rdAcct l a k' acc0 = peekState l a k') ∧ ivOf acc0 = peekInner l a
+  chg : (viewAcct l a = none ∧ KV.get l.accounts a = none ∧ r.changes = l.changes ++ [.createObject a, c]) ∨
+        ((viewAcct l a).isSome = true ∧ r.changes = l.changes ++ [c])
+
+theorem inner_write_spec (l : L) (a : Addr) (f : Inner → Inner) (c : Change) :
+    ISpec l a f c { putAcct (getOrCreate l a).1 a { (getOrCreate l a).2 with dirtyAcc := some (f (ivOf (getOrCreate l a).2)) } with
+      changes := (putAcct (getOrCreate l a).1 a { (getOrCreate l a).2 with dirtyAcc := some (f (ivOf (getOrCreate l a).2)) }).changes ++ [c] } := by
+  have hoth := getOrCreate_other l a
+  have hrd := getOrCreate_reads l a
+  have hiv := getOrCreate_inner l a
+  have hchg := getOrCreate_changes l a
+  obtain ⟨hc, hd⟩ := getOrCreate_cache_db l a
+  obtain ⟨hr1, hr2⟩ := getOrCreate_rev l a
+  refine ⟨hc, hd, hr1, hr2, ?_, ⟨(getOrCreate l a).2, ?_, hrd, hiv⟩, ?_⟩
+  · intro b hb
+    show KV.get (KV.set (getOrCreate l a).1.accounts a _) b = _
+    rw [KV.get_set_ne _ _ _ _ (Ne.symm hb), hoth b hb]
+  · show KV.get (KV.set (getOrCreate l a).1.accounts a _) a = _
+    rw [KV.get_set_eq]
+  · rcases hchg with ⟨h1, h2, h3⟩ | ⟨h1, h3⟩
+    · left
+      refine ⟨h1, h2, ?_⟩
+      show (getOrCreate l a).1.changes ++ [c] = _
+      rw [h3]; simp
+    · right
+      refine ⟨h1, ?_⟩
+      show (getOrCreate l a).1.changes ++ [c] = _
+      rw [h3]
+
+theorem setBalance_spec (l : L) (a : Addr) (v : Int) :
+    ISpec l a (fun d => { d with balance := v }) (.balance a (peekInner l a).balance) (setBalance l a v) := by
+  have := inner_write_spec l a (fun d => { d with balance := v }) (.balance a (peekInner l a).balance)
+  have e : (getOrCreate l a).2.balance = (peekInner l a).balance := by rw [acct_balance_iv, getOrCreate_inner]
+  unfold setBalance
+  simp only
+  rw [e]
+  exact this
+
+theorem setNonce_spec (l : L) (a : Addr) (v : Nat) :
+    ISpec l a (fun d => { d with nonce := v }) (.nonce a (peekInner l a).nonce) (setNonce l a v) := by
+  have := inner_write_spec l a (fun d => { d with nonce := v }) (.nonce a (peekInner l a).nonce)
+  have e : (getOrCreate l a).2.nonce = (peekInner l a).nonce := by rw [acct_nonce_iv, getOrCreate_inner]
+  unfold setNonce
+  simp only
+  rw [e]
+  exact this
+
+theorem rdAcct_dirtyAcc (l : L) (a : Addr) (k : String) (acc : Acct) (d : Option Inner) :
+    rdAcct l a k { acc with dirtyAcc := d } = rdAcct l a k acc := rfl
+
+/-- **one inner-account write, undone**: `g` is what the undo of `c` does to the inner account -/
+theorem undo_inner (K : String → String) (s : L) (a : Addr) (f g : Inner → Inner) (c : Change) (r : L) (sp : ISpec s a f c r)
+    (hundo : ∀ u au, KV.get u.accounts a = some au → undo K u c = putAcct u a { au with dirtyAcc := some (g (ivOf au)) })
+    (hfg : g (f (peekInner s a)) = peekInner s a) :
+    ∃ cs, r.changes = s.changes ++ cs ∧ ∀ u, RevRel u r → RevRel (cs.reverse.foldl (undo K) u) s := by
+  obtain ⟨acc0, hself, hrd0, hiv0⟩ := sp.self
+  have hpeekr : ∀ b k', peekState r b k' = peekState s b k' := by
+    intro b k'
+    by_cases hb : b = a
+    · subst hb
+      rw [peekState_of_present hself, rdAcct_dirtyAcc, rdAcct_congr sp.cache sp.db, hrd0]
+    · exact peekState_congr sp.cache sp.db b (sp.other b hb) k'
+  have hinr : ∀ b, b ≠ a → peekInner r b = peekInner s b := fun b hb => peekInner_congr sp.cache sp.db b (sp.other b hb)
+  have hinra : peekInner r a = f (peekInner s a) := by rw [peekInner_of_present hself, ← hiv0]; rfl
+  have common : ∀ u, RevRel u r →
+      u.cache = r.cache ∧ (undo K u c).cache = s.cache ∧ (undo K u c).db = s.db ∧ (∀ b k', peekState (undo K u c) b k' = peekState s b k') ∧
+      (∀ b, peekInner (undo K u c) b = peekInner s b) ∧
+      (∀ x, (KV.get r.accounts x).isSome = true → (KV.get (undo K u c).accounts x).isSome = true) := by
+    intro u hR
+    have hau : (KV.get u.accounts a).isSome = true := hR.keys a (by rw [hself]; rfl)
+    obtain ⟨au, hau⟩ := Option.isSome_iff_exists.mp hau
+    rw [hundo u au hau]
+    have f3 : KV.get (putAcct u a { au with dirtyAcc := some (g (ivOf au)) }).accounts a = some { au with dirtyAcc := some (g (ivOf au)) } :=
+      putAcct_get _ _ _
+    have f4 : ∀ b, b ≠ a → KV.get (putAcct u a { au with dirtyAcc := some (g (ivOf au)) }).accounts b = KV.get u.accounts b :=
+      fun b hb => KV.get_set_ne _ _ _ _ (Ne.symm hb)
+    have f1 : (putAcct u a { au with dirtyAcc := some (g (ivOf au)) }).cache = u.cache := rfl
+    have f2 : (putAcct u a { au with dirtyAcc := some (g (ivOf au)) }).db = u.db := rfl
+    refine ⟨hR.cache, f1.trans (hR.cache.trans sp.cache), f2.trans (hR.db.trans sp.db), ?_, ?_, ?_⟩
+    · intro b k'
+      rw [← hpeekr b k', ← hR.peek b k']
+      by_cases hb : b = a
+      · subst hb
+        rw [peekState_of_present f3, peekState_of_present hau, rdAcct_dirtyAcc]
+        exact rdAcct_congr f1 f2 b k' au
+      · exact peekState_congr f1 f2 b (f4 b hb) k'
+    · intro b
+      by_cases hb : b = a
+      · subst hb
+        rw [peekInner_of_present f3]
+        have : ivOf au = f (peekInner s b) := by rw [← peekInner_of_present hau, hR.inner b, hinra]
+        show g (ivOf au) = _
+        rw [this, hfg]
+      · rw [← hinr b hb, ← hR.inner b]
+        exact peekInner_congr f1 f2 b (f4 b hb)
+    · intro x hx
+      by_cases hxa : x = a
+      · subst hxa; rw [f3]; rfl
+      · rw [f4 x hxa]; exact hR.keys x hx
+  rcases sp.chg with ⟨hv, hacc, hchg⟩ | ⟨hv, hchg⟩
+  · refine ⟨_, hchg, ?_⟩
+    intro u hR
+    obtain ⟨_, c1, c2, c3, c3i, c4⟩ := common u hR
+    simp only [List.reverse_cons, List.reverse_nil, List.nil_append, List.cons_append, List.foldl_cons, List.foldl_nil]
+    generalize undo K u c = u1 at c1 c2 c3 c3i c4
+    have hload : loadAcct s a = none := by
+      unfold viewAcct at hv; rw [hacc] at hv; exact hv
+    have hinner : KV.get u1.cache.inner a = none := by rw [c1]; exact loadAcct_none_inner hload
+    have hcache : (undo K u1 (.createObject a)).cache = s.cache := by
+      show ({ u1.cache with inner := KV.erase u1.cache.inner a } : Cache) = s.cache
+      rw [KV.erase_of_get_none _ _ hinner]
+      exact c1
+    have hdb : (undo K u1 (.createObject a)).db = s.db := c2
+    have hget : ∀ b, KV.get (undo K u1 (.createObject a)).accounts b = if b = a then none else KV.get u1.accounts b := by
+      intro b
+      show KV.get (KV.erase u1.accounts a) b = _
+      by_cases hb : b = a
+      · subst hb; simp [KV.get_erase_eq]
+      · simp only [hb, if_false]; exact KV.get_erase_ne _ _ _ (Ne.symm hb)
+    refine ⟨hcache, hdb, ?_, ?_, ?_⟩
+    · intro b k'
+      by_cases hb : b = a
+      · subst hb
+        unfold peekState viewAcct
+        rw [hget, if_pos rfl, hacc, loadAcct_congr hcache hdb, hload]
+        exact below_congr hcache hdb b k'
+      · rw [← c3 b k']
+        exact peekState_congr (hcache.trans c1.symm) (hdb.trans c2.symm) b (by rw [hget, if_neg hb]) k'
+    · intro b
+      by_cases hb : b = a
+      · subst hb
+        unfold peekInner viewAcct
+        rw [hget, if_pos rfl, hacc, loadAcct_congr hcache hdb, hload]
+      · rw [← c3i b]
+        exact peekInner_congr (hcache.trans c1.symm) (hdb.trans c2.symm) b (by rw [hget, if_neg hb])
+    · intro x hx
+      have hxa : x ≠ a := by intro e; subst e; rw [hacc] at hx; cases hx
+      rw [hget, if_neg hxa]
+      exact c4 x (by rw [sp.other x hxa]; exact hx)
+  · refine ⟨_, hchg, ?_⟩
+    intro u hR
+    obtain ⟨_, c1, c2, c3, c3i, c4⟩ := common u hR
+    simp only [List.reverse_cons, List.reverse_nil, List.nil_append, List.foldl_cons, List.foldl_nil]
+    refine ⟨c1, c2, c3, c3i, ?_⟩
+    intro x hx
+    by_cases hxa : x = a
+    · subst hxa; exact c4 x (by rw [hself]; rfl)
+    · exact c4 x (by rw [sp.other x hxa]; exact hx)
+
+theorem undo_setBalance (K : String → String) (s : L) (a : Addr) (v : Int) :
+    ∃ cs, (setBalance s a v).changes = s.changes ++ cs ∧ ∀ u, RevRel u (setBalance s a v) → RevRel (cs.reverse.foldl (undo K) u) s :=
+  undo_inner K s a _ (fun d => { d with balance := (peekInner s a).balance }) _ _ (setBalance_spec s a v)
+    (fun u au h => by unfold undo; simp only [h, Option.getD_some]; rfl) (by cases peekInner s a; rfl)
+
+theorem undo_setNonce (K : String → String) (s : L) (a : Addr) (v : Nat) :
+    ∃ cs, (setNonce s a v).changes = s.changes ++ cs ∧ ∀ u, RevRel u (setNonce s a v) → RevRel (cs.reverse.foldl (undo K) u) s :=
+  undo_inner K s a _ (fun d => { d with nonce := (peekInner s a).nonce }) _ _ (setNonce_spec s a v)
+    (fun u au h => by unfold undo; simp only [h, Option.getD_some]; rfl) (by cases peekInner s a; rfl)
 
 /-- a storage write: `SetState` (`v = none`: `Delete`) -/
 structure SWrite where
@@ -459,6 +699,57 @@ theorem undo_writes (K : String → String) (ws : List SWrite) (s : L) :
     obtain ⟨cs2, h2, g2⟩ := ih (setState s w.addr w.key w.val)
     refine ⟨cs1 ++ cs2, ?_, ?_⟩
     · show (writes rest (setState s w.addr w.key w.val)).changes = _
+      rw [h2, h1, List.append_assoc]
+    · intro u hR
+      rw [List.reverse_append, List.foldl_append]
+      exact g1 _ (g2 u hR)
+
+/-- a journaled write: `SetState` / `Delete`, `SetBalance`, `SetNonce` -/
+inductive Write
+  | storage (a : Addr) (k : String) (v : Bytes)
+  | balance (a : Addr) (v : Int)
+  | nonce (a : Addr) (v : Nat)
+deriving Repr, DecidableEq
+
+def applyWrite (l : L) : Write → L
+  | .storage a k v => setState l a k v
+  | .balance a v => setBalance l a v
+  | .nonce a v => setNonce l a v
+
+def applyWrites (ws : List Write) (l : L) : L := ws.foldl applyWrite l
+
+theorem applyWrite_revs (l : L) (w : Write) : (applyWrite l w).revisions = l.revisions ∧ (applyWrite l w).nextRev = l.nextRev := by
+  cases w with
+  | storage a k v => exact ⟨(setState_spec l a k v).revs, (setState_spec l a k v).nrev⟩
+  | balance a v => exact ⟨(setBalance_spec l a v).revs, (setBalance_spec l a v).nrev⟩
+  | nonce a v => exact ⟨(setNonce_spec l a v).revs, (setNonce_spec l a v).nrev⟩
+
+theorem applyWrites_revs (ws : List Write) (l : L) :
+    (applyWrites ws l).revisions = l.revisions ∧ (applyWrites ws l).nextRev = l.nextRev := by
+  induction ws generalizing l with
+  | nil => exact ⟨rfl, rfl⟩
+  | cons w rest ih =>
+    have h1 := applyWrite_revs l w
+    have := ih (applyWrite l w)
+    exact ⟨this.1.trans h1.1, this.2.trans h1.2⟩
+
+theorem undo_applyWrite (K : String → String) (s : L) (w : Write) :
+    ∃ cs, (applyWrite s w).changes = s.changes ++ cs ∧ ∀ u, RevRel u (applyWrite s w) → RevRel (cs.reverse.foldl (undo K) u) s := by
+  cases w with
+  | storage a k v => exact undo_setState K s a k v
+  | balance a v => exact undo_setBalance K s a v
+  | nonce a v => exact undo_setNonce K s a v
+
+/-- **any sequence of journaled writes, undone** -/
+theorem undo_applyWrites (K : String → String) (ws : List Write) (s : L) :
+    ∃ cs, (applyWrites ws s).changes = s.changes ++ cs ∧ ∀ u, RevRel u (applyWrites ws s) → RevRel (cs.reverse.foldl (undo K) u) s := by
+  induction ws generalizing s with
+  | nil => exact ⟨[], by simp [applyWrites], fun u h => h⟩
+  | cons w rest ih =>
+    obtain ⟨cs1, h1, g1⟩ := undo_applyWrite K s w
+    obtain ⟨cs2, h2, g2⟩ := ih (applyWrite s w)
+    refine ⟨cs1 ++ cs2, ?_, ?_⟩
+    · show (applyWrites rest (applyWrite s w)).changes = _
       rw [h2, h1, List.append_assoc]
     · intro u hR
       rw [List.reverse_append, List.foldl_append]
@@ -512,8 +803,8 @@ theorem revertTo_eq (K : String → String) (s l2 : L) (cs : List Change)
   · show ((cs.reverse.foldl (undo K) { l2 with changes := s.changes }).revisions).filter _ = _
     exact hfilter _ u2
   · intro x hx y hy
-    have hR0 : RevRel { l2 with changes := s.changes } x := ⟨hx.cache, hx.db, hx.peek, hx.keys⟩
+    have hR0 : RevRel { l2 with changes := s.changes } x := ⟨hx.cache, hx.db, hx.peek, hx.inner, hx.keys⟩
     have := hy _ hR0
-    exact ⟨this.cache, this.db, this.peek, this.keys⟩
+    exact ⟨this.cache, this.db, this.peek, this.inner, this.keys⟩
 
 end Bxh.Ledger
